@@ -713,6 +713,39 @@ func c13R5(c *Ctx, r *Report) {
 		}
 		r.check(len(problems) == 0, "C13.R5.drain", name+":wait-close", c.pos(f.Pos()), "deferred wg.Wait(); close(shutdown)", "%s", strings.Join(problems, "; "))
 
+		// a return that the deferred wait-then-close does not cover leaves srv.shutdown open for ever: with started
+		// still set, a later Shutdown waits on it for ever and a retry is refused as "already started"
+		problems = nil
+		var drainDefer *ssa.Defer
+		allInstrs(f, func(in ssa.Instruction) {
+			if d, ok := in.(*ssa.Defer); ok {
+				if mc, ok := d.Call.Value.(*ssa.MakeClosure); ok {
+					if fn2, ok := mc.Fn.(*ssa.Function); ok && len(callsIn(fn2, "builtin.close")) > 0 {
+						drainDefer = d
+					}
+				}
+			}
+		})
+		if drainDefer != nil {
+			li := computeLocks(f, "Server", "lock", lkNone)
+			for _, b := range f.Blocks {
+				ret, ok := b.Instrs[len(b.Instrs)-1].(*ssa.Return)
+				if !ok || b == f.Recover || precedes(drainDefer, ret) {
+					continue
+				}
+				reset := false
+				for _, st := range storesToField(f, "Server", "started") {
+					if bv, isB := constBool(st.Val); isB && !bv && precedes(st, ret) && li.at[st] == lkW {
+						reset = true
+					}
+				}
+				if !reset {
+					problems = append(problems, fmt.Sprintf("%s: returns before the deferred wait-then-close(srv.shutdown) is installed and without resetting started under the lock: the start has failed but the server stays marked started, so Shutdown blocks on a channel nobody closes and a retry is refused", c.pos(ret.Pos())))
+				}
+			}
+		}
+		r.check(len(problems) == 0, "C13.R4.start-stop", name+":early-return", c.pos(f.Pos()), "covered by the drain defer or started reset", "%s", strings.Join(problems, "; "))
+
 		// loop condition and the not-started error exit
 		problems = nil
 		okNil := false
